@@ -312,7 +312,14 @@ func genC08(r *gen.Rand) (Input, string) {
 	return in, kind
 }
 
-var taskOutcomes = []string{"ok", "ok", "ok", "exit", "invol", "timeout", "late", "okslow", "trigfail"}
+var taskOutcomes = []string{"ok", "ok", "exit", "invol", "timeout", "late", "okslow", "trigfail", "report", "report", "report"}
+
+// the space of BASIC_TASK_TERMINATED reports: exit code negative / zero / positive, voluntary or
+// not, final Mesos state FINISHED / FAILED / KILLED
+func termReport(r *gen.Rand) string {
+	code := r.Pick([]string{"-1", "-1", "-9", "0", "0", "0", "1", "3", "137"})
+	return "x:" + code + ":" + r.Pick([]string{"0", "1", "1"}) + ":" + r.Pick([]string{"FINISHED", "FAILED", "KILLED"})
+}
 
 func genC09(r *gen.Rand) (Input, string) {
 	init := r.Pick([]string{"STANDBY", "DEPLOYED", "DEPLOYED", "CONFIGURED", "CONFIGURED"})
@@ -341,6 +348,9 @@ func genC09(r *gen.Rand) (Input, string) {
 		for _, t := range tasks {
 			if r.Chance(1, 2) {
 				out := r.Pick(taskOutcomes)
+				if out == "report" {
+					out = termReport(r)
+				}
 				if out == "timeout" || out == "late" || out == "okslow" {
 					if slowTimeouts >= 2 { // each costs a real time-out (25 ms) or the wait for a late event (75 ms)
 						out = "exit"
@@ -516,6 +526,25 @@ func genSim(r *gen.Rand, runningPct int) (Input, string) {
 	if running {
 		in.Ops[0].Fail = nil
 	}
+	// partially stamped runs: a STOP_ACTIVITY that fails in a critical hook leaves the environment
+	// RUNNING with the end stamp set (hook at before_STOP_ACTIVITY >= 0 or at leave_RUNNING) or not
+	// (negative before_STOP_ACTIVITY weight); the teardown that follows must set whatever is missing
+	if kind == "sim-teardown-running" && r.Chance(1, 2) {
+		trig := r.Pick([]string{"before_STOP_ACTIVITY", "before_STOP_ACTIVITY+2", "leave_RUNNING-1", "leave_RUNNING", "leave_RUNNING+1", "before_STOP_ACTIVITY-1"})
+		add(Hook{Kind: "call", Trig: trig, Await: trig, Crit: true})
+		stop := Op{Ev: "STOP_ACTIVITY", Real: true, Fail: []int{id}}
+		td := in.Ops[1]
+		// the hook fails in the STOP only, not again when the teardown runs the leave_RUNNING hooks
+		var keep []int
+		for _, f := range td.Fail {
+			if f != id {
+				keep = append(keep, f)
+			}
+		}
+		td.Fail = keep
+		in.Ops = []Op{in.Ops[0], stop, td}
+		kind = "sim-failed-stop-teardown"
+	}
 	return in, kind
 }
 
@@ -547,6 +576,18 @@ func simCorpus() ([]Input, []string) {
 		{Id: 2, Kind: "call", Trig: "before_START_ACTIVITY", Await: "after_STOP_ACTIVITY+1"},
 		{Id: 3, Kind: "call", Trig: "DESTROY-1", Await: "DESTROY-1"}},
 		Ops: []Op{{Ev: "START_ACTIVITY", Real: true}, {Ev: "STOP_ACTIVITY", Real: true}, {Ev: "TEARDOWN"}}})
+	// each stamp is judged on its own: teardown after a STOP_ACTIVITY that failed after / before the
+	// end stamp was written, and after a START_ACTIVITY that failed after the start stamp (C10-3)
+	for _, trig := range []string{"before_STOP_ACTIVITY", "leave_RUNNING", "before_STOP_ACTIVITY-1"} {
+		add("sim-failed-stop-teardown", Input{Level: "sim", Init: "CONFIGURED", Hooks: []Hook{
+			{Id: 1, Kind: "call", Trig: trig, Await: trig, Crit: true},
+			{Id: 2, Kind: "call", Trig: "DESTROY", Await: "DESTROY"}},
+			Ops: []Op{{Ev: "START_ACTIVITY", Real: true}, {Ev: "STOP_ACTIVITY", Real: true, Fail: []int{1}}, {Ev: "TEARDOWN"}}})
+	}
+	add("sim-failed-start-teardown", Input{Level: "sim", Init: "CONFIGURED", Hooks: []Hook{
+		{Id: 1, Kind: "call", Trig: "before_START_ACTIVITY", Await: "before_START_ACTIVITY", Crit: true},
+		{Id: 2, Kind: "call", Trig: "DESTROY", Await: "DESTROY"}},
+		Ops: []Op{{Ev: "START_ACTIVITY", Real: true, Fail: []int{1}}, {Ev: "TEARDOWN"}}})
 	return ins, kinds
 }
 
@@ -618,6 +659,23 @@ func corpus(prop string) ([]Input, []string) {
 					Ops: []Op{op, {Ev: "LEAVE_CANCEL"}}})
 			}
 		}
+		// ascending weights include the weights at which calls are only awaited (seeded regression
+		// C08-3: await-only weights processed after every trigger weight): an await-only weight below
+		// a trigger weight, the awaited call coming from an earlier moment (1, 2) and from an earlier
+		// weight of the same moment (3), slow, at each of the four kinds of moments, both sign classes
+		for _, m := range []string{"before_CONFIGURE", "leave_DEPLOYED", "enter_CONFIGURED", "after_CONFIGURE"} {
+			early := "before_CONFIGURE-9"
+			add("await-only-weight-"+m, Input{Level: "bare", Init: "DEPLOYED", Hooks: []Hook{
+				{Id: 1, Kind: "call", Trig: early, Await: m + "+2", Crit: false},
+				{Id: 2, Kind: "call", Trig: early, Await: m + "-3", Crit: true},
+				{Id: 3, Kind: "call", Trig: m + "+0", Await: m + "+4", Crit: false},
+				{Id: 4, Kind: "call", Trig: m + "-1", Await: m + "-1", Crit: false},
+				{Id: 5, Kind: "call", Trig: m + "+3", Await: m + "+3", Crit: false},
+				{Id: 6, Kind: "call", Trig: m + "+5", Await: m + "+5", Crit: true},
+				{Id: 7, Kind: "task", Trig: m + "+6", Crit: false, Timeout: "10s"}},
+				Ops: []Op{{Ev: "CONFIGURE", Slow: []int{1, 3}, Slower: []int{2}}, {Ev: "RESET"},
+					{Ev: "CONFIGURE", Slower: []int{1, 3}, Slow: []int{2}}, {Ev: "LEAVE_CANCEL"}}})
+		}
 		add("hooks_test-order", Input{Level: "bare", Init: "DEPLOYED", Hooks: []Hook{
 			{Id: 3, Kind: "call", Trig: "before_CONFIGURE+50", Await: "before_CONFIGURE+50", Crit: true},
 			{Id: 2, Kind: "call", Trig: "before_CONFIGURE+0", Await: "before_CONFIGURE+0", Crit: true},
@@ -648,6 +706,22 @@ func corpus(prop string) ([]Input, []string) {
 			{Id: 4, Kind: "call", Trig: "before_CONFIGURE-1", Await: "before_CONFIGURE-1", Crit: true},
 			{Id: 5, Kind: "call", Trig: "before_CONFIGURE+1", Await: "before_CONFIGURE+1", Crit: false}},
 			Ops: []Op{{Ev: "CONFIGURE", Fail: []int{1, 2}}, {Ev: "CONFIGURE", Fail: []int{4, 5}}, {Ev: "CONFIGURE", Fail: []int{5}}}})
+		// which termination reports of a hook task are failures (seeded regression C09-3: exit code -1
+		// of a crashed process reported with voluntaryTermination=true): a critical and a non-critical
+		// hook task at each of the four kinds of moments, every class of report
+		reports := []string{"x:-1:1:FAILED", "x:-9:0:KILLED", "x:0:1:FAILED", "x:0:0:KILLED", "x:2:1:FINISHED", "x:0:1:FINISHED", "x:-1:1:FINISHED"}
+		for mi, m := range []string{"before_CONFIGURE", "leave_DEPLOYED", "enter_CONFIGURED", "after_CONFIGURE"} {
+			hs := []Hook{
+				{Id: 1, Kind: "task", Trig: m + "-1", Crit: true, Timeout: "10s"},
+				{Id: 2, Kind: "task", Trig: m + "+1", Crit: false, Timeout: "10s"},
+				{Id: 3, Kind: "call", Trig: "after_CONFIGURE+5", Await: "after_CONFIGURE+5", Crit: false}}
+			var ops []Op
+			for k, rp := range reports {
+				ops = append(ops, Op{Ev: "CONFIGURE", TaskOut: map[string]string{"1": rp, "2": reports[(k+mi+1)%len(reports)]}})
+				ops = append(ops, Op{Ev: "RESET"})
+			}
+			add("task-reports-"+m, Input{Level: "bare", Init: "DEPLOYED", Hooks: hs, Ops: ops})
+		}
 		var many []Hook
 		var all []int
 		for i := 1; i <= 16; i++ {
